@@ -77,6 +77,11 @@ pub struct Interpreter<TStdlib: Stdlib, TStdIn: Input, TStdOut: Printer, TLpt1: 
     /// the statement that is being executed
     statement_depths: Vec<(usize, usize)>,
 
+    /// Holds the depths of the register stack and of the value stack at the
+    /// entry of every active subprogram call, GOSUB and error handler (and of
+    /// the main module). Labels cut the stacks back relative to them.
+    nesting_bases: Vec<NestingBase>,
+
     last_error_address: Option<usize>,
 
     last_error_code: Option<i32>,
@@ -263,6 +268,8 @@ impl<TStdlib: Stdlib, TStdIn: Input, TStdOut: Printer, TLpt1: Printer> Interpret
                     self.last_error_code = Some(e.err().get_code());
                     match ctx.error_handler {
                         ErrorHandler::Address(handler_address) => {
+                            // the labels of the handler must not cut the stacks of the interrupted code
+                            self.push_nesting_base(NestingKind::Handler);
                             // store error address, so we can call RESUME and RESUME NEXT from within the error handler
                             self.context.push_error_handler_context();
                             self.last_error_address = Some(i);
@@ -327,6 +334,11 @@ impl<TStdlib: Stdlib, TStdIn: Input, TStdOut: Printer, TLpt1: Printer>
             function_result: None,
             value_stack: vec![],
             statement_depths: vec![(0, 0)],
+            nesting_bases: vec![NestingBase {
+                kind: NestingKind::Call,
+                registers: 1,
+                values: 0,
+            }],
             last_error_address: None,
             last_error_code: None,
             print_state: PrintState::new(),
@@ -520,6 +532,12 @@ impl<TStdlib: Stdlib, TStdIn: Input, TStdOut: Printer, TLpt1: Printer>
                 }
             }
             Instruction::Label(_) => (), // no-op
+            Instruction::TrimStacks(for_depth, select_depth) => {
+                if let Some(base) = self.nesting_bases.last() {
+                    self.register_stack.truncate(base.registers + for_depth);
+                    self.value_stack.truncate(base.values + select_depth);
+                }
+            }
             Instruction::Halt => {
                 ctx.halt = true;
             }
@@ -527,6 +545,7 @@ impl<TStdlib: Stdlib, TStdIn: Input, TStdOut: Printer, TLpt1: Printer>
                 self.return_address_stack.push(*address);
                 self.statement_depths
                     .push((self.value_stack.len(), self.var_path_stack.len()));
+                self.push_nesting_base(NestingKind::Call);
                 // the callee might PRINT while a PRINT of the caller is under way
                 self.print_state_stack.push(self.print_state.clone());
             }
@@ -535,6 +554,11 @@ impl<TStdlib: Stdlib, TStdIn: Input, TStdOut: Printer, TLpt1: Printer>
                 if self.statement_depths.len() > 1 {
                     self.statement_depths.pop();
                 }
+                // drop what a GOTO or EXIT out of a FOR or SELECT CASE left behind
+                if let Some(base) = self.pop_nesting_base(NestingKind::Call) {
+                    self.register_stack.truncate(base.registers);
+                    self.value_stack.truncate(base.values);
+                }
                 if let Some(print_state) = self.print_state_stack.pop() {
                     self.print_state = print_state;
                 }
@@ -542,10 +566,12 @@ impl<TStdlib: Stdlib, TStdIn: Input, TStdOut: Printer, TLpt1: Printer>
             }
             Instruction::GoSub(address_or_label) => {
                 self.go_sub_address_stack.push(i);
+                self.push_nesting_base(NestingKind::GoSub);
                 ctx.opt_next_index = Some(address_or_label.address());
             }
             Instruction::Return(opt_address) => match self.go_sub_address_stack.pop() {
                 Some(address) => {
+                    self.pop_nesting_base(NestingKind::GoSub);
                     ctx.opt_next_index = Some(match opt_address {
                         Some(address_or_label) => address_or_label.address(),
                         _ => address + 1,
@@ -557,6 +583,7 @@ impl<TStdlib: Stdlib, TStdIn: Input, TStdOut: Printer, TLpt1: Printer>
             },
             Instruction::Resume => {
                 let last_error_address = self.take_last_error_address().with_err_at(&pos)?;
+                self.pop_nesting_base(NestingKind::Handler);
                 ctx.opt_next_index = Some(
                     ctx.nearest_statement_finder
                         .find_current(last_error_address),
@@ -565,6 +592,7 @@ impl<TStdlib: Stdlib, TStdIn: Input, TStdOut: Printer, TLpt1: Printer>
             }
             Instruction::ResumeNext => {
                 let last_error_address = self.take_last_error_address().with_err_at(&pos)?;
+                self.pop_nesting_base(NestingKind::Handler);
                 ctx.opt_next_index =
                     Some(ctx.nearest_statement_finder.find_next(last_error_address));
                 self.context.pop();
@@ -572,6 +600,7 @@ impl<TStdlib: Stdlib, TStdIn: Input, TStdOut: Printer, TLpt1: Printer>
             Instruction::ResumeLabel(resume_label) => {
                 // not using the last error address but need to clear it which also clears the err code
                 self.take_last_error_address().with_err_at(&pos)?;
+                self.pop_nesting_base(NestingKind::Handler);
                 ctx.opt_next_index = Some(resume_label.address());
                 self.context.pop();
             }
@@ -672,6 +701,33 @@ impl<TStdlib: Stdlib, TStdIn: Input, TStdOut: Printer, TLpt1: Printer>
         Ok(())
     }
 
+    fn push_nesting_base(&mut self, kind: NestingKind) {
+        self.nesting_bases.push(NestingBase {
+            kind,
+            registers: self.register_stack.len(),
+            values: self.value_stack.len(),
+        });
+    }
+
+    /// Pops the innermost nesting base of the given kind, together with the
+    /// bases on top of it. A GOSUB or handler base is not looked for beyond the
+    /// current subprogram call. The base of the main module is never popped.
+    fn pop_nesting_base(&mut self, kind: NestingKind) -> Option<NestingBase> {
+        let mut index = self.nesting_bases.len();
+        while index > 1 {
+            index -= 1;
+            if self.nesting_bases[index].kind == kind {
+                let base = self.nesting_bases[index];
+                self.nesting_bases.truncate(index);
+                return Some(base);
+            }
+            if self.nesting_bases[index].kind == NestingKind::Call {
+                break;
+            }
+        }
+        None
+    }
+
     /// Remembers the depths of the value stack and of the var path stack at
     /// the start of a statement.
     fn mark_statement_depths(&mut self) {
@@ -757,6 +813,20 @@ impl<TStdlib: Stdlib, TStdIn: Input, TStdOut: Printer, TLpt1: Printer>
             None => Err(RuntimeError::ResumeWithoutError),
         }
     }
+}
+
+#[derive(Clone, Copy, Debug, Eq, PartialEq)]
+enum NestingKind {
+    Call,
+    GoSub,
+    Handler,
+}
+
+#[derive(Clone, Copy, Debug)]
+struct NestingBase {
+    kind: NestingKind,
+    registers: usize,
+    values: usize,
 }
 
 /// Context available to the execution of a single instruction.
